@@ -63,6 +63,7 @@ type Obs struct {
 	Executed []string `json:"executed"`
 	Changed  []string `json:"changed"`
 	Listed   []string `json:"listed"`
+	Chmod    []string `json:"chmod"`
 }
 
 // ---- abstract worlds -------------------------------------------------------------------
@@ -223,7 +224,7 @@ func validName(n string) bool {
 type job struct {
 	in     Input
 	tags   []string
-	before map[string]string
+	before map[string]entry
 	obs    Obs
 	err    error
 }
@@ -283,8 +284,14 @@ func (e *env) build(caseDir, marker string, in Input) error {
 	return nil
 }
 
-func snapshot(caseDir string) (map[string]string, error) {
-	m := map[string]string{}
+// entry: what the snapshot keeps of a path - kind and content, and (regular files) the execute bits
+type entry struct {
+	state string
+	bits  string // "x" owner may execute, "g" some group / other execute bit
+}
+
+func snapshot(caseDir string) (map[string]entry, error) {
+	m := map[string]entry{}
 	err := filepath.WalkDir(caseDir, func(p string, d fs.DirEntry, err error) error {
 		if err != nil {
 			return err
@@ -296,18 +303,29 @@ func snapshot(caseDir string) (map[string]string, error) {
 		t := d.Type()
 		switch {
 		case t.IsDir():
-			m[rel] = "dir"
+			m[rel] = entry{state: "dir"}
 		case t&fs.ModeSymlink != 0:
 			tgt, _ := os.Readlink(p)
-			m[rel] = "symlink:" + tgt
+			m[rel] = entry{state: "symlink:" + tgt}
 		case t.IsRegular():
 			b, err := os.ReadFile(p)
 			if err != nil {
 				return err
 			}
-			m[rel] = fmt.Sprintf("file:%d:%x", len(b), sha256.Sum256(b))
+			fi, err := d.Info()
+			if err != nil {
+				return err
+			}
+			bits := ""
+			if fi.Mode().Perm()&0o100 != 0 {
+				bits += "x"
+			}
+			if fi.Mode().Perm()&0o011 != 0 {
+				bits += "g"
+			}
+			m[rel] = entry{state: fmt.Sprintf("file:%d:%x", len(b), sha256.Sum256(b)), bits: bits}
 		default:
-			m[rel] = "other:" + t.String()
+			m[rel] = entry{state: "other:" + t.String()}
 		}
 		return nil
 	})
@@ -421,6 +439,9 @@ func (e *env) execAll() error {
 		if len(o.Changed) > 0 {
 			e.c.Count("changed-something")
 		}
+		if len(o.Chmod) > 0 {
+			e.c.Count("changed-a-permission")
+		}
 		if in.Op != "list" {
 			if validName(effectiveName(in)) {
 				e.c.Count("name=acceptable")
@@ -455,7 +476,7 @@ func (e *env) prepare(k int, j *job) error {
 // execCase runs the operation on the real code and returns the observation.
 func (e *env) execCase(k int, j *job) (Obs, error) {
 	in, before := j.in, j.before
-	o := Obs{Executed: []string{}, Changed: []string{}, Listed: []string{}}
+	o := Obs{Executed: []string{}, Changed: []string{}, Listed: []string{}, Chmod: []string{}}
 	caseDir, marker := e.caseDir(k), e.marker(k)
 	ctx, cancel := context.WithTimeout(context.Background(), 30*time.Second)
 	defer cancel()
@@ -510,10 +531,13 @@ func (e *env) execCase(k int, j *job) (Obs, error) {
 		return o, err
 	}
 	for p, s := range before {
-		if after[p] != s {
+		if a, ok := after[p]; !ok || a.state != s.state {
 			o.Changed = append(o.Changed, p)
+		} else if a.bits != s.bits {
+			o.Chmod = append(o.Chmod, p)
 		}
 	}
+	sort.Strings(o.Chmod)
 	for p := range after {
 		if _, ok := before[p]; !ok {
 			o.Changed = append(o.Changed, p)
@@ -688,7 +712,10 @@ func (e *env) installCases(names []string, rootSet []string, full bool) error {
 					continue // ENOTDIR vs ENOENT is not modelled (see README)
 				}
 				for _, overwrite := range []bool{false, true} {
-					for _, route := range []string{"file", "dir", "dir-extra"} {
+					for _, route := range []string{"file", "dir", "dir-extra", "dir-nonexec"} {
+						if route == "dir-nonexec" && xi > 1 {
+							continue
+						}
 						w := baseWorld(root, name)
 						if validName(name) && name != "good" {
 							applyVariant(w, rc, name, ex.variant, ex.ver)
@@ -702,6 +729,10 @@ func (e *env) installCases(names []string, rootSet []string, full bool) error {
 						case "dir":
 							src = "/srcdir"
 							w.put("/srcdir/notation-"+name, "exec", 2)
+						case "dir-nonexec": // the only candidate lacks the execute permission: Install sets it - once the name is accepted
+							src = "/srcdir"
+							w.put("/srcdir/notation-"+name, "file", 2)
+							w.put("/srcdir/LICENSE", "file", 2)
 						case "dir-extra":
 							src = "/a/srcdir"
 							w.put(src+"/notation-"+name, "exec", 2)
